@@ -20,7 +20,7 @@ from . import boot
 mon = sys.monitoring
 TOOL = mon.DEBUGGER_ID
 BIG = 10**12
-_STATE = {"armed": False, "codes": 0, "focus_files": ("ruler.py",)}
+_STATE = {"armed": False, "codes": 0, "focus_files": ("ruler.py",), "focus_codes": set()}
 
 
 class Abort(BaseException):
@@ -80,9 +80,14 @@ def arm() -> int:
         mon.use_tool_id(TOOL, "verif-sched")
     except ValueError:
         pass
+    import dis
+
     codes = _code_objects(root)
     for c in codes:
         mon.set_local_events(TOOL, c, mon.events.INSTRUCTION)
+        # code that writes module-level state is a focus of the single-switch sweep, like rule management
+        if any(ins.opname in ("STORE_GLOBAL", "DELETE_GLOBAL") for ins in dis.get_instructions(c)):
+            _STATE["focus_codes"].add(c)
     _STATE["armed"] = True
     _STATE["codes"] = len(codes)
     return len(codes)
@@ -116,7 +121,7 @@ class Sched:
         self.count[i] = c
         if c > self.budget:
             raise Abort()
-        if self.record_focus and i == 0 and code.co_filename.endswith(_STATE["focus_files"]):
+        if self.record_focus and i == 0 and (code.co_filename.endswith(_STATE["focus_files"]) or code in _STATE["focus_codes"]):
             self.focus.append(c)
         self.quantum_left -= 1
         if self.quantum_left <= 0:
